@@ -23,38 +23,85 @@ pub enum Kind {
     UnexpectedEof,
     /// `find_file` returns `LoadError::UnknownFormat` (only for lookups).
     UnknownFormat,
-    /// (open faults) the file vanished between `is_file()` and `open()`
+    /// the file vanished (between `is_file()` and `open()`, or between lookup and read)
     NotFound,
+    IsADirectory,
+    NotADirectory,
+    WouldBlock,
+    BrokenPipe,
+    ConnectionReset,
+    ConnectionAborted,
+    OutOfMemory,
+    Unsupported,
+    InvalidInput,
+    WriteZero,
+    StorageFull,
+    ResourceBusy,
+    AlreadyExists,
 }
 
 impl Kind {
     pub fn io(self) -> io::ErrorKind {
+        use io::ErrorKind as E;
         match self {
-            Kind::PermissionDenied => io::ErrorKind::PermissionDenied,
-            Kind::Other | Kind::UnknownFormat => io::ErrorKind::Other,
-            Kind::TimedOut => io::ErrorKind::TimedOut,
-            Kind::Interrupted => io::ErrorKind::Interrupted,
-            Kind::InvalidData => io::ErrorKind::InvalidData,
-            Kind::UnexpectedEof => io::ErrorKind::UnexpectedEof,
-            Kind::NotFound => io::ErrorKind::NotFound,
+            Kind::PermissionDenied => E::PermissionDenied,
+            Kind::Other | Kind::UnknownFormat => E::Other,
+            Kind::TimedOut => E::TimedOut,
+            Kind::Interrupted => E::Interrupted,
+            Kind::InvalidData => E::InvalidData,
+            Kind::UnexpectedEof => E::UnexpectedEof,
+            Kind::NotFound => E::NotFound,
+            Kind::IsADirectory => E::IsADirectory,
+            Kind::NotADirectory => E::NotADirectory,
+            Kind::WouldBlock => E::WouldBlock,
+            Kind::BrokenPipe => E::BrokenPipe,
+            Kind::ConnectionReset => E::ConnectionReset,
+            Kind::ConnectionAborted => E::ConnectionAborted,
+            Kind::OutOfMemory => E::OutOfMemory,
+            Kind::Unsupported => E::Unsupported,
+            Kind::InvalidInput => E::InvalidInput,
+            Kind::WriteZero => E::WriteZero,
+            Kind::StorageFull => E::StorageFull,
+            Kind::ResourceBusy => E::ResourceBusy,
+            Kind::AlreadyExists => E::AlreadyExists,
         }
     }
-    pub const OPEN: [Kind; 5] =
-        [Kind::NotFound, Kind::PermissionDenied, Kind::Other, Kind::Interrupted, Kind::TimedOut];
+    /// The kinds every index is always hit with ...
     pub const FIND: [Kind; 6] = [
         Kind::PermissionDenied,
         Kind::Other,
         Kind::TimedOut,
         Kind::Interrupted,
-        Kind::InvalidData,
+        Kind::NotFound,
         Kind::UnknownFormat,
     ];
     pub const READ: [Kind; 5] = [
         Kind::PermissionDenied,
         Kind::Other,
-        Kind::TimedOut,
+        Kind::NotFound,
         Kind::InvalidData,
         Kind::UnexpectedEof,
+    ];
+    pub const OPEN: [Kind; 5] =
+        [Kind::NotFound, Kind::PermissionDenied, Kind::Other, Kind::Interrupted, Kind::TimedOut];
+    /// ... and the long tail, of which every index gets two in rotation (an error path that singles
+    /// out one `io::ErrorKind` is as likely to pick one of these).  `Interrupted` is not a read
+    /// fault: `Read::read_to_end` retries it by contract (it is the benign EINTR of `Chunking`).
+    pub const TAIL: [Kind; 14] = [
+        Kind::InvalidData,
+        Kind::UnexpectedEof,
+        Kind::IsADirectory,
+        Kind::NotADirectory,
+        Kind::WouldBlock,
+        Kind::BrokenPipe,
+        Kind::ConnectionReset,
+        Kind::ConnectionAborted,
+        Kind::OutOfMemory,
+        Kind::Unsupported,
+        Kind::InvalidInput,
+        Kind::WriteZero,
+        Kind::StorageFull,
+        Kind::ResourceBusy,
     ];
 }
 
